@@ -299,14 +299,25 @@ func retainedOf(regimeCountry l10n.TaxCountryCode, c *tax.Combo) bool {
 	return cd != nil && cd.Retained
 }
 
-func encCombos(w *[]string, regimeCountry l10n.TaxCountryCode, s tax.Set) {
+// The country of a prepared combo is the one the issuer WROTE on it (in: the
+// combos of the description, index-aligned with the calculated ones), a literal
+// repetition of the tax country of the document's own regime apart: groups are
+// distinguished by country, so which rows count as "another country" is part of
+// the statement and is not read back from the calculated document.  Category,
+// rate key, percentages and extensions are read from the calculated combo
+// (rate resolution is C12's subject).
+func encCombos(w *[]string, regimeCountry l10n.TaxCountryCode, s tax.Set, in []Combo) {
 	*w = append(*w, fmt.Sprint(len(s)))
-	for _, c := range s {
+	for i, c := range s {
 		ret := "0"
 		if retainedOf(regimeCountry, c) {
 			ret = "1"
 		}
-		*w = append(*w, hx(string(c.Category)), hx(string(c.Country)), hx(string(c.Rate)), np(c.Percent), np(c.Surcharge), hx(ExtText(c.Ext)), ret)
+		country := string(c.Country)
+		if len(in) == len(s) {
+			country = WrittenCountry(string(regimeCountry), in[i].Country)
+		}
+		*w = append(*w, hx(string(c.Category)), hx(country), hx(string(c.Rate)), np(c.Percent), np(c.Surcharge), hx(ExtText(c.Ext)), ret)
 	}
 }
 
@@ -368,17 +379,17 @@ func (d *Doc) Encode(calc *bill.Invoice) string {
 			encAdjs(&w, s.Discounts)
 			encAdjs(&w, s.Charges)
 		}
-		encCombos(&w, rc, calc.Lines[i].Taxes)
+		encCombos(&w, rc, calc.Lines[i].Taxes, l.Taxes)
 	}
 	w = append(w, fmt.Sprint(len(d.Discounts)))
 	for i, x := range d.Discounts {
 		w = append(w, eo(x.Percent), eo(x.Base), ea(x.Amount))
-		encCombos(&w, rc, calc.Discounts[i].Taxes)
+		encCombos(&w, rc, calc.Discounts[i].Taxes, x.Taxes)
 	}
 	w = append(w, fmt.Sprint(len(d.Charges)))
 	for i, x := range d.Charges {
 		w = append(w, eo(x.Percent), eo(x.Base), ea(x.Amount))
-		encCombos(&w, rc, calc.Charges[i].Taxes)
+		encCombos(&w, rc, calc.Charges[i].Taxes, x.Taxes)
 	}
 	w = append(w, fmt.Sprint(len(d.Rates)))
 	for _, r := range d.Rates {
